@@ -478,6 +478,9 @@ class TokenizerModel:
         self.idiom_hits["markup-declaration-open"] = 1
         arm = Arm()
         arm.ops = [("markup-declaration-open", tuple(kws), tuple(sorted((k, tuple(sorted(v.items()))) for k, v in new_tokens.items())))]
+        # the only non-consuming exit: everything read is given back and the bogus comment state is entered
+        arm.next = "bogusCommentState"
+        arm.unget = True
         arm.reads = 1
         self.arms[(sname, "<none>", ())] = arm
         self.dims[sname] = []
